@@ -65,3 +65,43 @@ void h_md_container(void) {
   if (o.f0 == TOODEEP) VASSERT(g_calls >= 1 && g_code[g_calls - 1 < MAXC ? g_calls - 1 : MAXC] == TOODEEP, "TooDeep otherwise only propagated from a child");
   if (exp == NOMEM) VWITNESS("nomem");
 }
+
+/* ================= readObject<Filter> / readArray<Filter>: null-destination discipline. The filter is one of
+ * true, {"k":true}, {"x":true}, {}, {"*":true}, [true], [] (FSHAPE 0..6); every key read by the (cut) readKey is "k". */
+#ifdef CUT_MPVF
+static struct S_AJ__detail__VariantData* g_fchild[MAXC + 1];
+uint32_t CUT_MPVF(struct S_AJ__detail__MsgPackDeserializer* d, struct S_AJ__detail__VariantData* v, struct S_AJ__detail__VariantData* fdata, struct S_AJ__detail__ResourceManager* frm, uint8_t limit) {
+  unsigned c = g_calls < MAXC ? g_calls : MAXC; g_calls++;
+  g_limit_seen[c] = limit; g_fchild[c] = v;
+  unsigned rem = w_md_remaining(d), k = vin_u8(), code = vin_u8();
+  VASSUME(k <= rem && code <= 5 && code != EMPTY); w_md_consume(d, k);
+  g_code[c] = code; return code;
+}
+#ifndef FSHAPE
+#define FSHAPE 1
+#endif
+void h_md_container_filter(void) {
+  uint8_t in[6]; for (unsigned i = 0; i < 6; i++) in[i] = vin_u8();
+  uint64_t n = vin_u8(); VASSUME(n <= MAXC); uint8_t L = vin_u8();
+  struct S_MOut o; memset(&o, 0, sizeof o);
+#if OBJECT
+  w_md_read_object_f(in, 6, n, L, FSHAPE, &o);
+  const int admit = FSHAPE == 0 || (FSHAPE >= 1 && FSHAPE <= 4);                 /* filter true or an object filter */
+  const int keep = FSHAPE == 0 || FSHAPE == 1 || FSHAPE == 4;                      /* member "k" kept: true, {"k":true}, {"*":true} */
+#else
+  w_md_read_array_f(in, 6, n, L, FSHAPE, &o);
+  const int admit = FSHAPE == 0 || FSHAPE == 5 || FSHAPE == 6;                     /* filter true or an array filter */
+  const int keep = FSHAPE == 0 || FSHAPE == 5;                                     /* element filter true */
+#endif
+  VASSERT(o.f0 <= 5, "documented code");
+  VASSERT((o.f2 != 0) == (admit && L != 0), "the container is created only when the filter admits its kind (and the depth allows it)");
+  if (L == 0) { VASSERT(o.f0 == TOODEEP && g_calls == 0 && g_adds == 0, "limit 0: TooDeep first, also under a filter that discards the value"); VWITNESS("toodeep"); return; }
+  for (unsigned c = 0; c < MAXC; c++) if (c < g_calls) {
+    VASSERT(g_limit_seen[c] == (uint8_t)(L - 1), "every child receives the nesting limit minus one, kept or discarded");
+    VASSERT((g_fchild[c] != 0) == keep, "a kept entry is decoded into the slot appended for it; a discarded entry gets a null destination");
+  }
+  VASSERT(g_adds == (keep ? g_calls + (g_add_failed ? 1u : 0u) : 0u) || (keep && g_add_failed), "slots are appended only for kept entries: filtering never requests more memory than the unfiltered run");
+  if (!g_add_failed && o.f0 == OK) { VASSERT(g_calls == n, "the announced count is honoured whatever the filter"); if (n) VWITNESS("entries"); }
+  if (g_add_failed) VASSERT(o.f0 == NOMEM, "a failed slot allocation is NoMemory");
+}
+#endif
